@@ -11,7 +11,7 @@
 (***************************************************************************)
 EXTENDS ScalarMul, Curves, TLC, FiniteSets
 CONSTANTS N, NPTS
-VARIABLES k, q, ph
+VARIABLES k, q, ph, cst      \* cst: the sample of points and the precomputed basepoint table, computed once
 Elems  == FAll(N)
 \* all curve points: for every y the roots of (y^2-1)/(dy^2+1) (SqrtRatioAlg is validated on this field by MC_Sqrt)
 PtsWithY(y) == LET sr == SqrtRatioAlg(DecU(y), DecV(y))
@@ -27,18 +27,18 @@ Pows(r, i) == IF i = 0 THEN {} ELSE {r} \cup Pows(EMul(BNOfInt(3), r), i - 1)
 Sample == Tors \cup {G, BaseP} \cup Pows(EAdd(G, G), NPTS)
 
 Scalars == BNRange(BNToInt(L))
-Init == k \in Scalars /\ q = Identity /\ ph = 0
-Next == ph = 0 /\ ph' = 1 /\ q' \in Sample /\ k' = k
+Init == cst = [sample |-> Sample, g |-> G, basep |-> BaseP, btab |-> TableOdd(BaseP, 64)] /\ k \in Scalars /\ q = Identity /\ ph = 0
+Next == ph = 0 /\ ph' = 1 /\ q' \in cst.sample /\ k' = k /\ cst' = cst
 
-RecvStates == {UninitPt, Identity, G}
+RecvStates == {UninitPt, Identity, cst.g}
 K2 == BNMod(BNAdd(BNMul(k, BNOfInt(7)), BNOfInt(3)), L)               \* a second scalar derived from k
-Q2 == EAdd(q, G)
+Q2 == EAdd(q, cst.g)
 
 Single ==
     \A al \in BOOLEAN :
         /\ \A v0 \in RecvStates : ScalarMultAlg(k, q, v0, al) = EMul(k, q)
-        /\ VarTimeDoubleAlg(k, q, K2, BaseP, al) = EAdd(EMul(k, q), EMul(K2, BaseP))
-Base == ScalarBaseMultAlg(k, BaseP) = EMul(k, BaseP) /\ ScalarBaseMultAlg(k, q) = EMul(k, q)
+        /\ VarTimeDoubleAlg(k, q, K2, cst.btab, al) = EAdd(EMul(k, q), EMul(K2, cst.basep))
+Base == ScalarBaseMultAlg(k, cst.basep) = EMul(k, cst.basep) /\ ScalarBaseMultAlg(k, q) = EMul(k, q)
 Multi ==
     \A v0 \in RecvStates :
         /\ MultiScalarMultAlg(<<>>, <<>>, v0, 0) = Identity
